@@ -313,6 +313,17 @@ void muggle_evloop_exit(muggle_event_loop_t *evloop)
 	else
 	{
 		evloop->to_exit = MUGGLE_EV_LOOP_EXIT_STATUS_EXIT;
+
+		// NOTE:
+		//   evloop->tid names the thread that created the event loop until
+		//   muggle_evloop_run records the running thread. If the creating
+		//   thread asks for exit before (or while) another thread starts
+		//   muggle_evloop_run, this branch is taken although the caller is
+		//   not the loop thread, and without a wakeup the loop blocks forever
+		//   in its first wait (timeout = -1). A wakeup is harmless when the
+		//   caller really is the loop thread: the exit flag is tested before
+		//   the next wait.
+		muggle_evloop_wakeup(evloop);
 	}
 }
 
